@@ -14,7 +14,8 @@ SPEC = {
              "own other mapping's secret) x mapping state (active, revoked, expired, inactive, missing) x tunnel state (no bridge, "
              "bridge waiting, bridge served, waiting on another node, route to this node without bridge) = 875 cells, all on every run; late matrix: identity (6, incl. the other mapping's target client) x credential (7) x tunnel that "
              "appears while the request polls (local bridge opened by the rightful listen client / route to this node / route to "
-             "another node, for mapping M / F) = 252 cells; plus random worlds (1-3 "
+             "another node, for mapping M / F) = 252 cells; transport matrix: identity asserted by the transport (8) x credential (7) x tunnel state (4) = 224; config matrix: no "
+             "routing table / other node unreachable / route past its expiry x identity (5) x credential (7) = 175; plus random worlds (1-3 "
              "mappings, shared and empty secrets, clients on both sides, malformed and empty payloads, mostly entitled requests with "
              "at most one thing broken); one end-to-end case (mapping created by the real PortMappingService, listen client and "
              "target client both admitted, bytes flow). Observed: the ack on the "
@@ -32,8 +33,9 @@ SPEC = {
     "assumptions": [
         "identWF: a connection has a client id only together with the authenticated flag (set by the auth handlers, C03; "
         "skeleton-checked: SetClientID is always followed by SetAuthenticated)",
-        "the requesting stream carries no client id of its own (no reader/stream type in the repository implements GetClientID); "
-        "the temporary-control-connection branch of findOrCreateControlConnection is therefore not modelled",
+        "a transport object that asserts a client id / vouches for its peer (GetClientID, CanCreateTemporaryControlConn) is an "
+        "input of the model (ConnIdent.streamClientID/.tempOK) and driven with a double; a vouching transport counts as "
+        "authentication (provenClient); no transport in the repository implements these interfaces today",
         "a tunnel that appears while a request polls is modelled as one late event (bridge+route on this node, route on this "
         "node, route on another node, any mapping) and driven through the real startSourceBridge / RegisterWaitingTunnel after "
         "the request's acknowledgement is on the wire; the acknowledgement is judged against the state at arrival, the "
